@@ -95,8 +95,10 @@ func runPath(ld *Loaded, cfg *HarnessCfg, fn *ssa.Function, s, s2 *Solver, prefi
 			}
 		}
 	}()
+	m.raceInit()
 	g := m.newGoroutine("main")
 	m.cur = g
+	m.race.actor = g
 	// package initialisation of the harness package (transitively, repo packages only)
 	if initFn := fn.Pkg.Func("init"); initFn != nil {
 		m.inInit = true
